@@ -33,7 +33,7 @@ fn exec_case(f: &[&str]) -> Vec<String> {
         "vmbody" | "vmsrv" | "vmcli" => t1_vmess::exec(f),
         "trojsrv" | "trojcu" | "trojenc" | "trojsenc" | "s5ir" | "s5cr" | "s5irs" | "s5crs" | "s5udp" | "s5udpenc" | "http" => t1_misc::exec(f),
         "s5enc" | "s5dec" | "s5try" | "vmw" | "vmr" => t1_addr::exec(f),
-        "cfgcipher" | "cfgproto" | "cfgmode" | "cfgkind" | "cfgobj" | "cfgkdf" | "cfgb64" | "cfgkeys" | "cfguser" | "cfgpath" => t1_config::exec(f),
+        "cfgcipher" | "cfgproto" | "cfgmode" | "cfgkind" | "cfgobj" | "cfgkdf" | "cfgb64" | "cfgkeys" | "cfguser" | "cfgpath" | "cfgvmess" => t1_config::exec(f),
         _ => vec![format!("UNKNOWN-COMPONENT {}", f[0])],
     }
 }
